@@ -9,4 +9,5 @@ def main : IO UInt32 :=
     | "c01d" => C01.check params lines
     | "c01re" => C01.check params lines
     | "c01twin" => C01.checkTwin params lines
+    | "c01patient" => C01.check params lines
     | _ => { bad := [s!"unknown family {family}"] })
